@@ -12,7 +12,7 @@ import (
 func init() { register("C05", c05) }
 
 func c05(p *an.Prog, r *an.R, tier string) {
-	r.Explanation = "C05 (structural clause): rebuild completeness of the query rewrites. Every function that rebuilds query nodes while rewriting (Map, flatten, evalConstants, stripCaseScopes, ExpandFileContent, the per-shard simplify, ...) carries over all fields of the node type it rebuilds: each composite literal of a query node type inside them sets every field of that type (positional literal, whole-struct copy, or all keys). A field added to a node type and not copied by one rewrite would silently change the query's meaning. Does NOT decide the equivalences themselves (folding under negation, Type->constant collapse, per-shard simplification against metadata, file/content expansion): semantic, over all trees and corpora."
+	r.Explanation = "C05 (structural clause): rebuild completeness of the query rewrites. Every function that rebuilds query nodes while rewriting (Map, flatten, evalConstants, stripCaseScopes, ExpandFileContent, the per-shard simplify, ...) carries over all fields of the node type it rebuilds: each composite literal of a query node type inside them sets every field of that type (positional literal, whole-struct copy, or all keys). A field added to a node type and not copied by one rewrite would silently change the query's meaning. (R4) evalConstants folds only Type and Boost wrappers to their child's constant. Does NOT decide the equivalences themselves (folding under negation, Type->constant collapse, per-shard simplification against metadata, file/content expansion): semantic, over all trees and corpora."
 	r.Rule("C05.R1", "in the rewriting functions every composite literal of a query.Q node type sets all fields of that type")
 	fam, _ := qFamily(p)
 	if !r.Anchor(len(fam) > 0, "query.Q implementers") {
